@@ -203,6 +203,14 @@ def run(tier: str) -> int:
         chk.evaluations += n_eval
         for clause, obs in fails:
             chk.violation({"stage": "B", "observed": obs}, clause, {"scorer": obs["scorer"], "clause": clause})
+        if tier == "thorough":  # unbounded complement (Apalache); reported, no verdict depends on it
+            from .. import lemmas
+
+            res = lemmas.run(wd)
+            chk.extra["unbounded_lemmas"] = res
+            for name, outcome in res.items():
+                if not outcome.startswith("not_run") and outcome != lemmas.LEMMAS[name]:
+                    chk.machinery(f"Apalache lemma {name}: {outcome}, expected {lemmas.LEMMAS[name]}")
     chk.exhaustive = True
     return chk.finish()
 
